@@ -497,7 +497,11 @@ def _bind_call(call: ast.Call, fn, position: int) -> dict:
     args = fn.node.args
     params = list(args.posonlyargs) + list(args.args)
     if fn.cls is not None and not fn.is_static and isinstance(call.func, ast.Attribute):
-        params = params[1:]
+        owner = ast.unparse(call.func.value).split('.')[-1]
+        explicit_self = isinstance(call.func.value, (ast.Name, ast.Attribute)) and \
+            owner == fn.cls.qn.rsplit('.', 1)[-1] and len(call.args) >= 1
+        if not explicit_self:  # `Base.method(self, a)` names every parameter
+            params = params[1:]
     bindings = {}
     for param, arg in zip(params, call.args):
         if isinstance(arg, ast.Starred):
